@@ -33,6 +33,26 @@ theorem decodeBitmap_encode (b : BitmapMsg) (hwf : b.WF) (hsz : (encodeBitmap b)
   rw [List.append_nil] at h3
   rw [h3, decodeMsg_nil]
 
+theorem all_i32ok (l : List Nat) (h : ∀ x ∈ l, x < 2 ^ 31) : l.all i32ok = true := by
+  simp only [List.all_eq_true, i32ok, decide_eq_true_eq]; exact h
+
+theorem bitmapI32OK_of_WF (b : BitmapMsg) (h : b.WF) : bitmapI32OK b = true := by
+  simp [bitmapI32OK, all_i32ok _ h.2.1, all_i32ok _ h.2.2]
+
+theorem optOK_of {β : Type} (f : β → Bool) (o : Option β) (h : ∀ b, o = some b → f b = true) :
+    optOK f o = true := by
+  cases o with
+  | none => rfl
+  | some b => exact h b rfl
+
+theorem checkI32_ok {α : Type} (ok : α → Bool) (m : α) (h : ok m = true) : checkI32 ok (.ok m) = .ok m := by
+  simp [checkI32, h]
+
+theorem decodeBitmapTop_encode (b : BitmapMsg) (hwf : b.WF) (hsz : (encodeBitmap b).length < 2 ^ 64) :
+    decodeBitmap (encodeBitmap b) = .ok b := by
+  unfold decodeBitmap
+  rw [decodeBitmap_encode b hwf hsz, checkI32_ok _ _ (bitmapI32OK_of_WF b hwf)]
+
 theorem protoSizeBitmap_eq (b : BitmapMsg) : protoSizeBitmap b = (encodeBitmap b).length := by
   simp [protoSizeBitmap, encodeBitmap, encPackedF_length]
 
@@ -107,6 +127,16 @@ theorem decodeVLenArray_encode (v : VLenArrayMsg) (hwf : v.WF) (hsz : (encodeVLe
     (fun h0 => by cases qb <;> simp at h0; rfl)
   rw [List.append_nil] at h6
   rw [h6, decodeMsg_nil]
+
+theorem vlenI32OK_of_WF (v : VLenArrayMsg) (h : v.WF) : vlenI32OK v = true := by
+  obtain ⟨hn, hc, hf, hp, hq⟩ := h
+  simp [vlenI32OK, i32ok, hn, hc, hf, optOK_of bitmapI32OK _ (fun b hb => bitmapI32OK_of_WF b (hp b hb)),
+    optOK_of bitmapI32OK _ (fun b hb => bitmapI32OK_of_WF b (hq b hb))]
+
+theorem decodeVLenArrayTop_encode (v : VLenArrayMsg) (hwf : v.WF) (hsz : (encodeVLenArray v).length < 2 ^ 64) :
+    decodeVLenArray (encodeVLenArray v) = .ok v := by
+  unfold decodeVLenArray
+  rw [decodeVLenArray_encode v hwf hsz, checkI32_ok _ _ (vlenI32OK_of_WF v hwf)]
 
 theorem protoSizeVLenArray_eq (v : VLenArrayMsg) : protoSizeVLenArray v = (encodeVLenArray v).length := by
   simp only [protoSizeVLenArray, encodeVLenArray, List.length_append, encVarintF_length, encBytesF_length,
